@@ -48,6 +48,32 @@ CHECKS = {
             "Integer/dyadic values only (float equality = exact equality); scipy ppf and mpmath CDFs trusted; "
             "random sources intercepted by attribute replacement.",
             "stateless exhaustive path enumeration on the implementation under scripted random sources"),
+    "C04": ("exploration",
+            "Exhaustive enumeration of matrix alphabets (all 2x2 over a small alphabet, companion matrices, every nilpotent-tail + "
+            "cycle shape up to 4x4) x initial vectors x inhomogeneous parts x both solvers x root options; every component at every "
+            "n <= dim + 6 compared with exact iteration. No transition structure: an input-grid enumeration, claimed as exploration.",
+            "DESIGN.md §3 C04",
+            "Trusted: Fraction iteration; sympy subs/expand; numeric modes judged with a 1e-5 relative bound at numeric_eps = 1e-10.",
+            "exhaustive enumeration of recurrence systems vs exact iteration"),
+    "C06": ("exploration",
+            "Exhaustive over all singles, pairs and triples of a menu of 20 closed forms: every polynomial of Polar's invariant basis "
+            "is evaluated on independently computed exact sequences at n = 0..12.",
+            "DESIGN.md §3 C06",
+            "Trusted: hand-written exact evaluators of the menu sequences; sympy substitution/expansion.",
+            "exhaustive enumeration of closed-form tuples; invariants evaluated on exact sequences"),
+    "C07": ("exploration",
+            "Same tuples: the degree-bounded space of all polynomial relations (exact rational nullspace of the evaluation matrix on "
+            "120 consecutive n) must lie in the ideal generated by Polar's basis.",
+            "DESIGN.md §3 C07",
+            "Completeness only up to degree 3 (2 for triples); sympy Groebner membership trusted.",
+            "exhaustive enumeration of closed-form tuples; degree-bounded vanishing space vs reported ideal"),
+    "C16": ("exploration",
+            "Exhaustive over all lists of length <= 3 over a 12-letter rational alphabet and length <= 2 (3) over a 7-letter algebraic "
+            "alphabet; the definition is decided by brute force on the whole exponent box: returned vectors are relations, independent, "
+            "and generate every relation in the box.",
+            "DESIGN.md §3 C16",
+            "Completeness only inside the box [-6,6]^k ([-4,4]^3 for triples in quick); algebraic relations by numeric prefilter + minimal polynomial.",
+            "exhaustive enumeration of base lists x exponent box against the definition"),
 }
 
 NOT_YET = {}
